@@ -1,7 +1,11 @@
 """C14 - Conditional requests never yield a stale 304 and always revalidate a fresh copy."""
 from __future__ import annotations
 
+import importlib
 import os
+import random
+import sys
+import time
 from email.utils import formatdate
 
 from hypothesis import strategies as st
@@ -37,7 +41,20 @@ RULES = {
     "histories2": "Hypothesis: histories as in `histories` with all of the above drawn freely: one application instance or a fresh one per request, "
     "constructor options, flat or nested layout with pretty URLs, GET/HEAD, delete / shrink / truncate / access operations, all 20 validator "
     "forms and the 20 multi-line forms of grid2 (M) (`histories` draws the multi-line forms as well), unrelated headers, and the 200 answers "
-    "to conditional requests remembered as further responses j",
+    "to conditional requests remembered as further responses j; the directory of the application given as absolute path / os.PathLike / relative "
+    "path / relative path inside an importable package (`package=`; the package is created by the harness below a scratch directory that is on "
+    "sys.path only while the application is constructed)",
+    "tagsearch": "structured search for two DIFFERENT versions (mtime, size) of a file that get ONE entity tag, judged by real histories only. Candidate "
+    "finder: the response classes' generate_etag is called on synthetic stat results (real os.stat_result objects) for product families of versions - "
+    "(1) a window of consecutive whole-second mtimes x all sizes 0..N, at the fixed clock origin and at an origin derived from VERIF_SEED; (2) mtimes "
+    "origin + k*10^j (j = 0..7, k = 0..99) x sizes around the powers of ten and of two; (3) sub-second mtimes (k/1000, k/8, .1 .25 .3 .5 .75 .999 past "
+    "a second, as the float the virtual clock hands out; the tag is fed from its str()) x small sizes; (4) seeded mtimes with 7-digit fractions; (5) "
+    "digit neighbours of a base version: one or two decimal digits of mtime / size changed by +-1, +-2, +-9, three by +1,-2,+1, adjacent digits swapped - "
+    "and grouped by tag in one dict across the families (about 6*10^5 versions in the quick tier). For each candidate pair (at most 8, spread over time-only / size-only / both) and for a few seeded control pairs of neighbouring "
+    "versions the REAL history is run through one long-lived Files and Pages instance on both interfaces on the virtual file clock: write version A, "
+    "GET, revalidate, rewrite to version B, send A's validators (ETag, weak, in a list, ETag + date), GET, revalidate; also B -> A. The verdict is the "
+    "ordinary oracle's. Evidence: coverage.tagsearch = versions examined, candidate pairs, histories run; label finder=agrees when the real ETag equals "
+    "the finder's tag for that version",
 }
 ASSUMPTIONS = [
     "undetectable class: same size and identical mtime - a 304 is tolerated there; for Last-Modified-only validators any change whose "
@@ -45,6 +62,8 @@ ASSUMPTIONS = [
     "Last-Modified-only revalidation of an unchanged file may be 304 or 200",
     "timestamps are virtual (os.stat wrapped before baize is imported); sizes and contents are real files",
     "a HEAD request is a request: it revalidates like GET (304 for an unchanged file) and hands out the same validators; its body is not judged here",
+    "tagsearch: FileResponse.generate_etag on synthetic stat results only PROPOSES pairs of versions; every verdict comes from a real history through the "
+    "applications. A tag that is not made by that function leaves the finder blind (label finder=differs), never wrong",
     "a deleted file: only the 304 is judged here (a request with validators for a file that is gone must not be told 'not modified'); the 404 itself is C07's",
 ]
 
@@ -66,21 +85,29 @@ BASIC_FORMS = ("etag", "lastmod", "both", "star")
 MODS = ("rewrite_same", "rewrite_other", "touch", "restore_old", "rewrite_shrink", "truncate")
 DEFAULT_NAMES = ["a.txt", "b.html"]
 TREE_NAMES = ["index.html", "sub/index.html", "docs/c.html"]
+DIRMODES = ("absolute", "package", "relative", "pathlike")
+PKG = "verif_c14_pkg"  # the served directory is <scratch>/verif_c14_pkg/static: reachable as a path and as ("static", package=PKG)
 _DIR = None
+_ROOT = None
 
 
 def _reset():
-    global _DIR
+    global _DIR, _ROOT
     _DIR = None
+    _ROOT = None
 
 
 core.AFTER_FORK.append(_reset)
 
 
 def workdir():
-    global _DIR
+    global _DIR, _ROOT
     if _DIR is None:
-        _DIR = tmpfiles.workdir("verif_c14_")
+        _ROOT = tmpfiles.workdir("verif_c14_")
+        os.makedirs(os.path.join(_ROOT, PKG, "static"))
+        with open(os.path.join(_ROOT, PKG, "__init__.py"), "w") as fh:
+            fh.write("")
+        _DIR = os.path.join(_ROOT, PKG, "static")
     return _DIR
 
 
@@ -125,6 +152,19 @@ class World:
             a, m, c = f["times"]
             f["times"] = (max(a, self.now), m, c)
             vfs.set_times(self.path(name), *f["times"])
+
+    def setver(self, name, mtime, size):
+        """The file is rewritten at clock time `mtime` with `size` bytes of new content (a rewrite of the same or another size at a chosen moment)."""
+        f = self.files[name]
+        f["version"] += 1
+        self.now = mtime
+        a = self.now if f["deleted"] else f["times"][0]
+        old = f["content"]
+        head = f"{name}:v{f['version']}:".encode()
+        body = (head + bytes([97 + f["version"] % 26]) * max(0, size - len(head)))[:size]
+        self.write(name, self._differs(body, old) if len(old) == size else body, a, mtime, mtime)
+        for j in f["mods_since"]:
+            f["mods_since"][j].append("setver")
 
     @staticmethod
     def _differs(new, old):
@@ -270,7 +310,9 @@ async def _h404_asgi(scope, receive, send):
     await send({"type": "http.response.body", "body": b"custom-404"})
 
 
-def make_app(world, kind, side, opts=None):
+def make_app(world, kind, side, opts=None, mode=None):
+    """mode: how the application is told its directory (always the same directory) - absolute path (default), os.PathLike, relative path,
+    relative path inside an importable package."""
     M = W if side == "wsgi" else A
     kw = {}
     for k, v in (opts or {}).items():
@@ -279,7 +321,31 @@ def make_app(world, kind, side, opts=None):
                 kw["handle_404"] = _h404_wsgi if side == "wsgi" else _h404_asgi
         else:
             kw[k] = v
-    return (M.Files if kind == "files" else M.Pages)(world.dir, **kw)
+    cls = M.Files if kind == "files" else M.Pages
+    if mode in (None, "absolute"):
+        return cls(world.dir, **kw)
+    if mode == "pathlike":
+        import pathlib
+
+        return cls(pathlib.Path(world.dir), **kw)
+    if mode == "relative":
+        cwd = os.getcwd()
+        os.chdir(os.path.dirname(world.dir))
+        try:
+            return cls(os.path.basename(world.dir), **kw)
+        finally:
+            os.chdir(cwd)
+    if mode == "package":
+        if world.dir != _DIR:
+            raise core.HarnessError("package mode outside the scratch package")
+        importlib.invalidate_caches()
+        sys.path.insert(0, _ROOT)
+        try:
+            return cls(os.path.basename(world.dir), PKG, **kw)
+        finally:
+            sys.path.remove(_ROOT)
+            sys.modules.pop(PKG, None)
+    raise core.HarnessError(f"directory mode {mode!r}")
 
 
 def do_request(world, kind, side, name, headers, app=None, method="GET", noise=False):
@@ -335,14 +401,16 @@ def _oracle(case) -> Result:
     nontrivial = False
     shared = case.get("app") == "shared"  # one application instance per interface for the whole history
     opts = case.get("opts")
+    mode = case.get("dir")  # how the application is told its directory
+    want_tag = {}  # tagsearch: the tag the candidate finder computed for the file's current version
     chain = bool(case.get("chain"))  # 200 answers to conditional requests are remembered as responses j as well
     apps = {}
 
     def app_for(side):
         if not shared:
-            return make_app(world, kind, side, opts)
+            return make_app(world, kind, side, opts, mode)
         if side not in apps:
-            apps[side] = make_app(world, kind, side, opts)
+            apps[side] = make_app(world, kind, side, opts, mode)
         return apps[side]
 
     def remember(f, run):
@@ -360,6 +428,10 @@ def _oracle(case) -> Result:
             if op[0] in MODS:
                 world.modify(name, op[0])
                 continue
+            if op[0] == "setver":
+                world.setver(name, op[2], op[3])
+                want_tag[name] = op[4] if len(op) > 4 else None
+                continue
             if op[0] == "delete":
                 world.delete(name)
                 continue
@@ -368,8 +440,8 @@ def _oracle(case) -> Result:
                 continue
             side = op[2]
             ctx = f"{kind} {side} step {step} {op!r} file {name} (history {case['ops'][:step + 1]!r})"
-            if shared or opts:
-                ctx += f" [app {'shared' if shared else 'fresh'}, options {opts!r}]"
+            if shared or opts or mode:
+                ctx += f" [app {'shared' if shared else 'fresh'}, options {opts!r}" + (f", directory given as {mode}" if mode else "") + "]"
             if op[0] == "get":
                 ex = op[4] if len(op) > 4 and isinstance(op[4], dict) else {}
                 method = ex.get("method", "GET")
@@ -392,6 +464,9 @@ def _oracle(case) -> Result:
                     return r
                 if lm != formatdate(f["times"][1], usegmt=True):
                     r.fail(f"C14:{side}:last-modified-value", f"{ctx}: Last-Modified {lm!r}, file mtime is {formatdate(f['times'][1], usegmt=True)!r}")
+                if want_tag.get(name) is not None:
+                    # evidence only: does the candidate finder see the tags the application hands out?
+                    r.label("finder=agrees" if etag.strip('"') == want_tag[name] else "finder=differs")
                 remember(f, run)
                 continue
             if op[0] == "cond":
@@ -489,6 +564,10 @@ def _oracle(case) -> Result:
         r.label("app=shared")
     if opts:
         r.label("options")
+    if mode:
+        r.label(f"dir={mode}")
+    if case.get("search"):
+        r.label(f"search={case['search']}")
     if case.get("names"):
         r.label("layout=tree")
     for op in case["ops"]:
@@ -498,12 +577,12 @@ def _oracle(case) -> Result:
             for k in sorted(ex):
                 if ex[k]:
                     r.label(f"cond:{k}={ex[k]}")
-        elif op[0] in MODS or op[0] in ("delete", "access"):
+        elif op[0] in MODS or op[0] in ("delete", "access", "setver"):
             r.label(op[0])
     return r
 
 
-SUBS = {"histories": oracle, "grid": oracle, "grid2": oracle, "histories2": oracle}
+SUBS = {"histories": oracle, "grid": oracle, "grid2": oracle, "histories2": oracle, "tagsearch": oracle}
 
 
 @st.composite
@@ -574,6 +653,9 @@ def history2_case(draw):
             "frac": draw(st.sampled_from([0.0, 0.25, 0.25, 0.5, 0.999])), "tz": draw(st.sampled_from([None, None, None, "EST5EDT,M3.2.0,M11.1.0", "CST-8", "NPT-5:45"]))}
     if opts:
         case["opts"] = opts
+    mode = draw(st.sampled_from([None, None, "package", "package", "relative", "pathlike"]))
+    if mode:
+        case["dir"] = mode
     return case
 
 
@@ -711,11 +793,229 @@ def grid2_cases():
             if kind == "pages":
                 yield {"kind": kind, "nfiles": 2, "ops": [["get", 1, side, True], ["cond", 1, side, 0, form, {"pretty": True}], ["advance", 0], ["rewrite_other", 1],
                                                           ["cond", 1, side, 0, form, {"pretty": True}]]}
+    # (N) the directory given as `package=` / relative path / os.PathLike: one long-lived instance (section A's history) and a fresh one per request
+    for kind, side in KS:
+        for f, pretty in ((0, False), (1, True)) if kind == "pages" else ((0, False),):
+            ex = {"pretty": True} if pretty else {}
+            for mode in DIRMODES[1:]:
+                full = mode == "package"
+                for mod in ALLMODS if full else (None, "rewrite_same", "rewrite_other"):
+                    for dt in (0, 2) if full else (2,):
+                        for form in ("etag", "lastmod", "both", "weak-in-list") if full else ("etag", "both"):
+                            ops = hist(side, f, [["get", f, side, pretty], ["cond", f, side, 0, form, ex]], dt, mod,
+                                       [["cond", f, side, 0, form, ex], ["get", f, side, pretty], ["cond", f, side, 1, "etag", ex]])
+                            yield {"kind": kind, "nfiles": 2, "ops": ops, "app": "shared", "dir": mode}
+                for mod in (None, "rewrite_other", "touch"):
+                    for form in ("etag", "lastmod"):
+                        yield {"kind": kind, "nfiles": 2, "dir": mode, "app": "fresh",
+                               "ops": hist(side, f, [["get", f, side, pretty]], 2, mod, [["cond", f, side, 0, form, ex], ["get", f, side, pretty]])}
     # (I) unrelated headers (some with look-alike names) around the validators
     for kind, side in KS:
         for mod in (None, "rewrite_other"):
             for form in ("etag", "both", "both-ims-first", "lastmod", "star", "near-tags"):
                 yield {"kind": kind, "nfiles": 1, "ops": hist(side, 0, [["get", 0, side, False, {"noise": True}]], 0, mod, [["cond", 0, side, 0, form, {"noise": True}]])}
+
+# ------------------------------------------------------------------------------------------------------------------------
+# tagsearch: two different versions of a file under one entity tag
+
+
+def _digit_neighbours(n, keep_leading=True):
+    """Integers with the decimal digits of n changed a little: one digit by +-1/+-2/+-9, two digits by such steps in every combination
+    (x+1,y-1 ...), three neighbouring digits by +1,-2,+1 / -1,+2,-1, two adjacent digits swapped.  With keep_leading the first digit
+    stays and the number of digits with it."""
+    digits = [int(c) for c in str(n)]
+    pos = range(1 if keep_leading and len(digits) > 1 else 0, len(digits))
+    steps = (-2, -1, 1, 2, -9, 9)
+
+    def moved(ds, changes):
+        ds = list(ds)
+        for i, a in changes:
+            ds[i] += a
+        return ds if all(0 <= d <= 9 for d in ds) else None
+
+    found = [digits]
+    for i in pos:
+        for a in steps:
+            found.append(moved(digits, [(i, a)]))
+            for j in pos:
+                if j > i:
+                    for b in steps:
+                        found.append(moved(digits, [(i, a), (j, b)]))
+        if i + 2 < len(digits):
+            found.append(moved(digits, [(i, 1), (i + 1, -2), (i + 2, 1)]))
+            found.append(moved(digits, [(i, -1), (i + 1, 2), (i + 2, -1)]))
+        if i + 1 < len(digits):
+            sw = list(digits)
+            sw[i], sw[i + 1] = sw[i + 1], sw[i]
+            found.append(sw)
+    return sorted({int("".join(map(str, ds))) for ds in found if ds is not None})
+
+
+def tag_families(seed, quick=True):
+    """Product families (name, mtimes, sizes) of file versions.  mtimes are floats exactly as the virtual clock hands them to os.stat."""
+    rnd = random.Random(seed * 7919 + 14)
+    base = int(T0)
+    sbase = base + rnd.randrange(10_000, 90_000_000)  # a clock origin of this run
+    nwin, nsize = (900, 256) if quick else (6000, 400)
+    fams = [("window", [float(base + k) for k in range(nwin)], list(range(nsize))),
+            ("window-seeded", [float(sbase + k) for k in range(nwin // 3)], list(range(nsize)))]
+    # every decimal position of the time: seconds ... years
+    scale = sorted({float(b + k * 10 ** j) for b in (base, sbase) for j in range(8) for k in range(100)})
+    sizes = sorted(set(list(range(0, 13)) + list(range(95, 106)) + list(range(120, 136)) + list(range(195, 216)) + list(range(495, 511)) +
+                       list(range(995, 1006)) + [1020, 1021, 1210, 2010, 2020, 4095, 4096, 4097, 8191, 8192, 9999, 10000, 10001, 65535, 65536, 99999, 100000]))
+    fams.append(("scales", sorted(set(scale[::2] + scale[1::8])) if quick else scale, sizes))
+    # sub-second stamps
+    fr = [0.0, 0.1, 0.25, 0.3, 0.5, 0.75, 0.999, 0.001, 0.125, 0.0625, 0.2, 0.7]
+    sub = sorted({b + k + x for b in (base, sbase) for k in range(60) for x in fr} | {base + i / 1000 for i in range(1000)} | {sbase + i / 8 for i in range(800)})
+    fams.append(("sub-second", sub, list(range(0, 24 if quick else 120))))
+    # stamps as a file system with nanosecond resolution reports them
+    ns = sorted({sbase + rnd.randrange(0, 100_000) + rnd.randrange(0, 10_000_000) / 10_000_000 for _ in range(2500 if quick else 20000)})
+    fams.append(("nanosecond", ns, sorted({rnd.randrange(0, 5000) for _ in range(8 if quick else 30)})))
+    # digit neighbours of a base version (seeded base: digits away from 0 and 9 leave room in both directions)
+    for tag, b in (("fixed", base + 121), ("seeded", sbase - sbase % 1000 + rnd.choice([121, 343, 454, 565, 727]))):
+        for sz in ((121, 1210) if tag == "fixed" else (rnd.choice([232, 343, 454, 565, 676]), 503)):
+            fams.append((f"digits-{tag}-{sz}", [float(v) for v in _digit_neighbours(b)], _digit_neighbours(sz, keep_leading=False)))
+    return fams
+
+
+def _stat_factory():
+    """Synthetic results of os.stat for a regular file: genuine os.stat_result objects with chosen size and times (as harness.vfs builds them)."""
+    path = os.path.join(workdir(), "a.txt")
+    if not os.path.exists(path):
+        with open(path, "wb") as fh:
+            fh.write(b"x")
+    cls, (seq, extra) = vfs._orig_stat(path).__reduce__()
+    seq, extra = list(seq), dict(extra)
+
+    def make(mtime, size):
+        seq[6] = size
+        seq[7] = seq[8] = seq[9] = int(mtime)
+        extra["st_atime"] = extra["st_mtime"] = extra["st_ctime"] = mtime
+        extra["st_atime_ns"] = extra["st_mtime_ns"] = extra["st_ctime_ns"] = int(round(mtime * 1_000_000_000))
+        if "st_blocks" in extra:
+            extra["st_blocks"] = (size + 511) // 512
+        return cls(tuple(seq), extra)
+
+    return make
+
+
+def find_tag_candidates(seed, quick=True, keep=400):
+    """Candidate finder (no verdict): versions of one family that the response classes' tag generator does not tell apart.
+    Returns (number of versions examined, number of colliding pairs seen, kept pairs [(family, (m0, s0), (m1, s1))], {version: tag}, notes)."""
+    gens = []
+    notes = []
+    for M in (W, A):
+        try:
+            g = M.FileResponse.generate_etag
+        except AttributeError:
+            notes.append(f"{M.__name__}.FileResponse has no generate_etag: no candidates from it")
+            continue
+        if all(g is not h for h in gens):
+            gens.append(g)
+    make = _stat_factory()
+    examined = collisions = 0
+    pairs = []
+    tags = {}
+    for gen in gens:
+        seen = {}  # hash of the tag -> first version with it, across the families (a tag of few bits shows between unrelated versions first)
+        for fam, mtimes, sizes in tag_families(seed, quick):
+            if len(seen) > 1_500_000:
+                seen = {}
+            kept = {"time": 0, "size": 0, "both": 0}
+            try:
+                for m in mtimes:
+                    for sz in sizes:
+                        tag = gen(make(m, sz))
+                        first = seen.setdefault(hash(tag), (m, sz))
+                        if first != (m, sz) and gen(make(*first)) == tag:
+                            collisions += 1
+                            cls_ = "time" if first[1] == sz else "size" if first[0] == m else "both"
+                            if kept[cls_] < keep // 3:
+                                kept[cls_] += 1
+                                pairs.append((fam, first, (m, sz)))
+                                tags[first] = tags[(m, sz)] = tag
+                    examined += len(sizes)
+            except Exception as exc:  # noqa: BLE001 - the finder only proposes; what the application does is judged by the histories
+                notes.append(f"family {fam}: generate_etag raised {exc!r} on a synthetic stat result")
+    return examined, collisions, pairs, tags, notes
+
+
+def _pick_pairs(pairs, cap=8):
+    """A few candidate pairs, spread over the kinds of difference (time only / size only / both) and, within a kind, over the families;
+    non-empty small files and small steps first."""
+    def kind(p):
+        (m0, s0), (m1, s1) = p[1], p[2]
+        return "time" if s0 == s1 else "size" if m0 == m1 else "both"
+
+    def cost(p):
+        (m0, s0), (m1, s1) = p[1], p[2]
+        return (abs(m1 - m0) < 1.0 and s0 == s1, max(s0, s1) > 20000, min(s0, s1) == 0, abs(m1 - m0) + abs(s1 - s0))
+
+    queues = {}
+    for k in ("time", "size", "both"):
+        fams = {}
+        for p in sorted((p for p in pairs if kind(p) == k), key=cost):
+            fams.setdefault(p[0], []).append(p)
+        # best pair of every family, then the second best of every family, ...
+        queues[k] = [ps[r] for r in range(max((len(v) for v in fams.values()), default=0)) for ps in fams.values() if len(ps) > r]
+    out = []
+    rank = 0
+    while len(out) < cap and any(len(q) > rank for q in queues.values()):
+        for k in ("time", "size", "both"):
+            if len(queues[k]) > rank and len(out) < cap:
+                out.append(queues[k][rank])
+        rank += 1
+    return out
+
+
+def tag_history_cases(pair, tags, why):
+    """The real history for two versions A, B of one file: A is served and remembered, the file becomes B, A's validators are sent."""
+    fam, va, vb = pair
+    if (va[0], va[1]) > (vb[0], vb[1]):
+        va, vb = vb, va
+    for kind in ("files", "pages"):
+        for side in ("wsgi", "asgi"):
+            for x, y in ((va, vb), (vb, va)):
+                ops = [["setver", 0, x[0], x[1]] + ([tags[x]] if x in tags else []), ["get", 0, side, False], ["cond", 0, side, 0, "etag"],
+                       ["setver", 0, y[0], y[1]] + ([tags[y]] if y in tags else []),
+                       ["cond", 0, side, 0, "etag"], ["cond", 0, side, 0, "weak"], ["cond", 0, side, 0, "list-middle"], ["cond", 0, side, 0, "both"],
+                       ["get", 0, side, False], ["cond", 0, side, 1, "etag"], ["cond", 0, side, 0, "weak-in-list"]]
+                yield {"kind": kind, "nfiles": 1, "ops": ops, "app": "shared", "search": f"{why}:{fam}"}
+                if why == "control":
+                    break
+
+
+def tagsearch_cases(rec):
+    quick = rec.tier == "quick"
+    t0 = time.time()
+    examined, collisions, pairs, tags, notes = find_tag_candidates(rec.seed, quick)
+    picked = _pick_pairs(pairs, 8 if quick else 24)
+    cases = []
+    for p in picked:
+        cases.extend(tag_history_cases(p, tags, "candidate"))
+    # control: neighbouring versions of every family through the same histories (on a sound tree the only histories of this sub-check); the
+    # finder's tag for them is compared with the ETag the application sends (label finder=agrees)
+    rnd = random.Random(rec.seed * 104729 + 14)
+    make = _stat_factory()
+    ncontrol = 0
+    for fam, mtimes, sizes in tag_families(rec.seed, quick):
+        if fam.startswith("digits-seeded") or fam == "window-seeded":
+            continue
+        i, j = rnd.randrange(len(mtimes) - 1), rnd.randrange(len(sizes) - 1)
+        va = (mtimes[i], min(sizes[j], 20000))
+        vb = rnd.choice([(mtimes[i + 1], va[1]), (va[0], min(sizes[j + 1], 20001)), (mtimes[i + 1], min(sizes[j + 1], 20001))])
+        t = {}
+        try:
+            for v in (va, vb):
+                t[v] = W.FileResponse.generate_etag(make(*v))
+        except Exception:  # noqa: BLE001
+            t = {}
+        cases.extend(tag_history_cases((fam, va, vb), t, "control"))
+        ncontrol += 1
+    rec.extra["tagsearch"] = {"versions_examined": examined, "colliding_pairs_seen": collisions, "candidate_pairs_run": len(picked),
+                              "control_pairs_run": ncontrol, "histories_run": len(cases), "finder_seconds": round(time.time() - t0, 2), "notes": notes[:10]}
+    rec.sub_seconds["tagsearch"] = round(rec.sub_seconds.get("tagsearch", 0.0) + time.time() - t0, 2)
+    return cases
 
 
 def run(rec, only=None):
@@ -724,6 +1024,9 @@ def run(rec, only=None):
     rec.exhaustive["grid"] = True
     core.drive_cases(rec, "grid2", grid2_cases(), oracle)
     rec.exhaustive["grid2"] = True
+    if rec.only is None or "tagsearch" in rec.only:
+        core.drive_cases(rec, "tagsearch", tagsearch_cases(rec), oracle)
+        rec.exhaustive["tagsearch"] = False
     core.drive_hypothesis(rec, "histories", history_case(), oracle, 600 if quick else 60000)
     rec.exhaustive["histories"] = False
     core.drive_hypothesis(rec, "histories2", history2_case(), oracle, 400 if quick else 60000)
